@@ -92,6 +92,12 @@ type Exec struct {
 	curClause     *Clause
 	group         string
 	primary       bool
+	modelHandles  []modelHandle
+}
+
+type modelHandle struct {
+	dt  types.Type
+	ref *Term
 }
 
 // active: the clause takes part in the current verification pass
